@@ -84,3 +84,7 @@ add("C16", "c16", q, t)
 # ---- C04 heaps -------------------------------------------------------------------
 q, t = rapid_jobs(qshards=4, tshards=16, tscale=10)
 add("C04", "c04", q, t)
+
+# ---- C13 linked lists --------------------------------------------------------------
+q, t = rapid_jobs(qshards=4, tshards=16, tscale=10)
+add("C13", "c13", q, t)
